@@ -259,6 +259,9 @@ def main(argv: list[str]) -> int:
     if new:
         seen = set()
         for v in new:
+            if len(seen) >= 10:
+                print(f"  ... {len(new)} violating cases recorded in this run; the first {len(seen)} distinct ones are listed")
+                break
             path = write_replay(pid, v, tier, seed)
             if path in seen:
                 continue
